@@ -344,6 +344,8 @@ SPECS["C15"] = dict(
     assumptions=[],
     harnesses=[
         H("chelper_h", "chelper_foreign_bytes", stubbing=True, timeout=900, mem_gb=16, symbolic="12 arbitrary bytes stored under the requested digest (a mempool batch in the shared store)", asserts="the helper task neither panics nor stops"),
+        H("mhelper_h", "mhelper_member", stubbing=True, timeout=900, mem_gb=16, symbolic="6 stored batch bytes; request [stored digest, unknown digest] from authority 2", asserts="real mempool Helper::run: exactly one reply, the stored bytes, to the requester's mempool address; the unknown digest is skipped; the helper survives"),
+        H("mhelper_h", "mhelper_stranger", stubbing=True, timeout=900, mem_gb=16, symbolic="as above, requester not in the committee", asserts="nothing is sent, the store is not consulted, the helper survives"),
         H("chelper_h", "chelper_block_member", stubbing=True, timeout=900, mem_gb=16, symbolic="stored block fields", asserts="no panic; reply = Propose(stored block)"),
         H("chelper_h", "chelper_missing", stubbing=True, timeout=900, mem_gb=16, symbolic="digest", asserts="no panic, no reply"),
         H("chelper_h", "chelper_block_nonmember", stubbing=True, timeout=900, mem_gb=16, symbolic="stored block fields", asserts="no panic, no reply to a non-member"),
